@@ -32,7 +32,13 @@ pub fn run_source_after(prior: &(String, bool), src: &str, drive: Drive, rec: bo
     let mut xs = fresh();
     xs.set_recording_enabled(rec);
     xs.set_insn_limit(Some(insn_limit)).unwrap();
-    let _ = guarded(|| if prior.1 { xs.eval(&prior.0) } else { xs.compile(&prior.0).and_then(|_| xs.run()) });
+    // a prior text starting with "STEP " is compiled and single-stepped (to its end or to its failure)
+    let _ = guarded(|| if let Some(p) = prior.0.strip_prefix("STEP ") {
+        xs.compile(p)?;
+        let mut k = 0;
+        while xs.is_running() && k < 20_000 { xs.next()?; k += 1; }
+        Ok(())
+    } else if prior.1 { xs.eval(&prior.0) } else { xs.compile(&prior.0).and_then(|_| xs.run()) });
     let _ = xs.read_stdout();
     xs.set_insn_limit(Some(insn_limit)).unwrap(); // resets the meter
     run_on(xs, src, drive)
